@@ -129,12 +129,105 @@ def _check_nests(cases: list[dict]) -> dict:
 	return {'failures': failures, 'machinery': machinery}
 
 
+def _py_list(construct: str, text: str) -> list[str]:
+	"""the items of the list the case is about, as CPython's ast orders them"""
+	import ast
+	tree = ast.parse(text)
+	top = tree.body[0]
+	name = lambda e: e.id if isinstance(e, ast.Name) else e.func.id if isinstance(e, ast.Call) else ast.unparse(e)
+	if construct in ('decorators-def', 'decorators-class'):
+		return [name(d) for d in top.decorator_list]
+	if construct == 'decorator-args':
+		return [name(a) for a in top.decorator_list[0].args]
+	if construct == 'bases':
+		return [name(b) for b in top.bases]
+	if construct == 'elifs':
+		out, node = [], top.body[0]
+		while node.orelse and isinstance(node.orelse[0], ast.If):
+			node = node.orelse[0]
+			out.append(node.test.left.id)
+		return out
+	if construct == 'with-items':
+		return [name(i.context_expr) for i in top.body[0].items]
+	if construct == 'params':
+		return [a.arg for a in top.args.args]
+	if construct == 'call-args':
+		return [name(a) for a in top.body[0].value.args]
+	if construct == 'dict-items':
+		return [k.value for k in top.body[0].value.keys]
+	raise Machinery(f'unknown list construct {construct}')
+
+
+def _tranp_list(construct: str, entry) -> list[str]:
+	import rogw.tranp.syntax.node.definition as defs
+	top = entry.statements[0]
+	first = lambda node: node.tokens.split('.')[0].split('(')[0]
+	if construct in ('decorators-def', 'decorators-class'):
+		return [d.path.tokens for d in top.decorators]
+	if construct == 'decorator-args':
+		return [a.value.tokens for a in top.decorators[0].arguments]
+	if construct == 'bases':
+		return [t.tokens for t in top.inherits]
+	if construct == 'elifs':
+		return [e.condition.elements[0].tokens for e in top.statements[0].else_ifs]
+	if construct == 'with-items':
+		return [e.enter.calls.tokens for e in top.statements[0].entries]
+	if construct == 'params':
+		return [p.symbol.tokens for p in top.parameters]
+	if construct == 'call-args':
+		return [a.value.tokens for a in top.statements[0].return_value.arguments]
+	if construct == 'dict-items':
+		import ast
+		return [ast.literal_eval(p.first.tokens) for p in top.statements[0].return_value.items]
+	raise Machinery(f'unknown list construct {construct}')
+
+
+def lists_in_source_order(entry, label: str) -> list[dict]:
+	"""every list-valued property of every node holds its items in the order of the text (CPython's lists are in source order)"""
+	import rogw.tranp.syntax.node.definition as defs
+	failures = []
+	for node in [entry, *entry.procedural()]:
+		for key in node.prop_keys():
+			value = getattr(node, key)
+			if not isinstance(value, list) or len(value) < 2:
+				continue
+			spans = [(tuple(v.source_map['begin']), type(v).__name__) for v in value if not isinstance(v, defs.Empty) and tuple(v.source_map['begin']) != (0, 0)]
+			if any(a[0] > b[0] for a, b in zip(spans, spans[1:])):
+				failures.append({'clause': 'ListsInSourceOrder', 'detail': f'{label}: {type(node).__name__}.{key} at line {node.source_map["begin"][0]} lists its items out of text order: {spans[:4]}', 'text': label, 'kinds': f'order:{type(node).__name__}.{key}'})
+	return failures
+
+
+def _check_lists(cases: list[dict]) -> dict:
+	from harness.tranp_env import Env, enter_scratch
+	enter_scratch('verif-c02l-')
+	failures, machinery = [], []
+	for case in cases:
+		if _py_list(case['construct'], case['text']) != list(case['order']):
+			machinery.append(f'spec and CPython disagree on the {case["construct"]} of {case["text"]!r}: {case["order"]} vs {_py_list(case["construct"], case["text"])}')
+			continue
+		try:
+			entry = Env().reload_main(case['text']).entrypoint
+			got = _tranp_list(case['construct'], entry)
+		except Exception as e:
+			failures.append({'clause': 'accepted', 'detail': f'{case["construct"]} ({case["text"]!r}): {type(e).__name__}: {str(e)[:160]}', 'text': case['text'], 'kinds': f'list:{case["construct"]}'})
+			continue
+		if got != list(case['order']):
+			failures.append({'clause': 'ListOrder', 'detail': f'{case["construct"]} of {case["text"]!r}: tranp lists {got}, the text and CPython have {list(case["order"])}', 'text': case['text'], 'kinds': f'list:{case["construct"]}'})
+		failures += lists_in_source_order(entry, case['text'])
+	return {'failures': failures, 'machinery': machinery}
+
+
+LIST_CASES: list[dict] = []
+
+
 def load_nests() -> list[dict]:
 	import json
 	from harness import tlc
 	res = tlc.run('PyDefsEmit', 'PyDefs.cfg', workers=1, timeout=600)
 	if res.rc != 0 or res.lines('CLOSURE ') != ['TRUE'] or res.lines('CONSTRUCTOR ') != ['TRUE']:
 		raise Machinery(f'PyDefs: a model-level fact fails or evaluation error: {res.out[-600:]}')
+	global LIST_CASES
+	LIST_CASES = [json.loads(line) for line in res.lines('LIST ')]
 	return [json.loads(line) for line in res.lines('NEST ')]
 
 
@@ -150,11 +243,12 @@ def run_statements(ctx: Ctx) -> tuple[list[Violation], dict]:
 	nests = load_nests()
 	with ProcessPoolExecutor(max_workers=16) as ex:
 		nres = list(ex.map(_check_nests, [nests[i::16] for i in range(16)]))
+		nres += list(ex.map(_check_lists, [LIST_CASES[i::16] for i in range(16)]))
 	machinery = [m for r in nres for m in r['machinery']]
 	if machinery:
 		raise Machinery(f'{len(machinery)} definition nestings, e.g. {machinery[0]}')
 	failures = [f for r in results for f in r['failures']] + _check_defs(defcases) + [f for r in nres for f in r['failures']]
-	ctx.log(f'{len(stmts)} statement skeletons + {len(defcases)} definition shapes + {len(nests)} definition nestings: tranp differs on {len(failures)}')
+	ctx.log(f'{len(stmts)} statement skeletons + {len(defcases)} definition shapes + {len(nests)} definition nestings + {len(LIST_CASES)} ordered-list cases: tranp differs on {len(failures)}')
 	groups: dict[str, list] = {}
 	for f in failures:
 		groups.setdefault(f'{f["clause"]}:{f["kinds"]}', []).append(f)
